@@ -32,6 +32,9 @@ FUNCS = [
     ("src_grandeNormale", "src/geodesy/LambertConverter.cpp", "romea::core::LambertConverter::computeGrandeNormal", "computeGrandeNormal"),
     ("src_meridionalRadius", "src/geodesy/EarthEllipsoid.cpp", "romea::core::EarthEllipsoid::meridionalRadius", "meridionalRadius"),
     ("src_transversalRadius", "src/geodesy/EarthEllipsoid.cpp", "romea::core::EarthEllipsoid::transversalRadius", "transversalRadius"),
+    # constructor: the member initialisers, in initialisation order, as a tuple (a member may read members initialised before it)
+    ("src_makeEllipsoid", "src/geodesy/EarthEllipsoid.cpp", "romea::core::EarthEllipsoid::EarthEllipsoid", "EarthEllipsoid",
+     {"ctor": 2}),
     ("src_toECEF", "src/geodesy/ECEFConverter.cpp", "romea::core::ECEFConverter::toECEF", "toECEF"),
     ("src_toLambert", "src/geodesy/LambertConverter.cpp", "romea::core::LambertConverter::toLambert", "toLambert"),
     # matrix mode: the 3x3 block written column by column with Eigen comma initialisers  m.linear().col(k) << a, b, c;
@@ -58,7 +61,7 @@ FUNCS = [
 ]
 # the property (= generated file gen/SrcFuns<unit>.v) each function belongs to: a function the translator cannot handle any more
 # breaks the tie of its own property only
-UNIT = {"src_toECEF": "C01", "src_ecefToWGS84": "C01", "src_enuFrame": "C02",
+UNIT = {"src_makeEllipsoid": "C01", "src_toECEF": "C01", "src_ecefToWGS84": "C01", "src_enuFrame": "C02",
         "src_between0And2Pi": "C10", "src_betweenMinusPiAndPi": "C10", "src_rotation2DToEulerAngle": "C10",
         "src_rotation3DToEulerAngles": "C10"}          # everything else: C03
 
@@ -169,6 +172,7 @@ class Fn:
         self.locals = {}      # local scalar name -> coq name
         self.vec = {}         # local vector name -> {index: term}
         self.lets = []        # (coq name, term)
+        self.members = {}     # constructor mode: member already initialised -> coq name
 
     def var(self, name):
         name = name.replace("__", "_").rstrip("_") or name
@@ -219,7 +223,12 @@ class Fn:
                 raise Unsupported("reference to non-local variable %s (declare it in CONSTS)" % nm)
             return self.var(nm)
         if k == "MemberExpr":
-            return self.var(self.path(n))
+            nm = self.path(n)
+            if nm in self.members:
+                return self.members[nm]
+            if self.mode.get("ctor"):
+                raise Unsupported("constructor reads member %s before its initialiser" % nm)
+            return self.var(nm)
         if k == "UnaryOperator" and n.get("opcode") == "-":
             return "(nneg N %s)" % self.expr(n["inner"][0])
         if k == "UnaryOperator" and n.get("opcode") == "+":
@@ -379,7 +388,31 @@ class Fn:
         else:
             raise Unsupported("statement %s%s" % (k, " inside a loop" if in_loop else ""))
 
+    def ctor_body(self):
+        """member initialisers (clang lists them in initialisation order) -> tuple of the members' values; the body
+        must be empty"""
+        comp = [c for c in self.node.get("inner", []) if c.get("kind") == "CompoundStmt"]
+        if not comp or any(not (self.void_noop(st) or st.get("kind") == "NullStmt") for st in comp[0].get("inner", [])):
+            raise Unsupported("constructor with a non-empty body")
+        res = []
+        for c in self.node.get("inner", []):
+            if c.get("kind") != "CXXCtorInitializer":
+                continue
+            nm = (c.get("anyInit") or {}).get("name")
+            if not nm or not is_scalar((c.get("anyInit") or {}).get("type", {}).get("qualType", "")):
+                raise Unsupported("initialiser of a non-scalar member or base")
+            t = self.expr(c["inner"][0])
+            cn = "m_" + nm
+            self.emit(cn, t)
+            self.members[nm] = cn
+            res.append(cn)
+        if not res:
+            raise Unsupported("constructor without member initialisers")
+        return res
+
     def body(self):
+        if self.mode.get("ctor"):
+            return self.ctor_body()
         comp = [c for c in self.node.get("inner", []) if c.get("kind") == "CompoundStmt"]
         if not comp:
             raise Unsupported("no body")
@@ -578,7 +611,7 @@ class Fn:
         return int(idx["value"]), [self.expr(e) for e in [first] + rest]
 
 
-def find_def(objs, mname, instantiation=False, param_type=None):
+def find_def(objs, mname, instantiation=False, param_type=None, ctor_params=None):
     found = []
 
     def first_param_ok(n):
@@ -588,7 +621,12 @@ def find_def(objs, mname, instantiation=False, param_type=None):
         return bool(ps) and param_type in ps[0].get("type", {}).get("qualType", "")
 
     def walk(n):
-        if n.get("kind") in ("CXXMethodDecl", "FunctionDecl") and n.get("name") == mname and \
+        if ctor_params is not None:
+            if n.get("kind") == "CXXConstructorDecl" and n.get("name") == mname and \
+                    any(c.get("kind") == "CompoundStmt" for c in n.get("inner", [])) and \
+                    sum(1 for c in n.get("inner", []) if c.get("kind") == "ParmVarDecl") == ctor_params:
+                found.append(n)
+        elif n.get("kind") in ("CXXMethodDecl", "FunctionDecl") and n.get("name") == mname and \
                 any(c.get("kind") == "CompoundStmt" for c in n.get("inner", [])) and \
                 any(c.get("kind") == "TemplateArgument" for c in n.get("inner", [])) == instantiation and first_param_ok(n):
             found.append(n)
@@ -629,7 +667,8 @@ def generate(repo="/repo"):
                     if len(vds) != 1 or not vds[0].get("inner"):
                         raise Unsupported("constant %s: %d definitions" % (cn_, len(vds)))
                     mode["consts"][cn_] = Fn({"inner": []}).expr(vds[0]["inner"][-1])
-            defs = find_def(load(repo, src, flt, tu), mname, bool(mode and mode.get("tu")), mode.get("param_type") if mode else None)
+            defs = find_def(load(repo, src, flt, tu), mname, bool(mode and mode.get("tu")), mode.get("param_type") if mode else None,
+                            mode.get("ctor") if mode else None)
             if len(defs) != 1:
                 raise Unsupported("%d definitions found" % len(defs))
             f = Fn(defs[0], known, mode)
